@@ -2729,7 +2729,6 @@ emit_member_type_selector(arg_t *arg, asn1p_expr_t *expr, asn1c_ioc_table_and_ob
     OUT("size_t for_column = %zu; /* %s */\n", for_column, for_field);
     OUT("size_t row;\n");
 
-    const char *tname = asn1c_type_name(arg, constraining_memb, TNF_SAFE);
     if(constraining_memb->marker.flags & EM_INDIRECT) {
         OUT("const void *memb_ptr = *(const void **)");
         OUT("((const char *)parent_sptr + offsetof(%s", c_name(arg).full_name);
@@ -2739,9 +2738,15 @@ emit_member_type_selector(arg_t *arg, asn1p_expr_t *expr, asn1c_ioc_table_and_ob
     }
 
     switch(asn1c_type_fits_long(arg, constraining_memb)) {
-    case FL_NOTFIT:
+    case FL_NOTFIT: {
+        /*
+         * Taken here, not earlier: asn1c_type_name() and MKID_safe()
+         * return the same static buffer.
+         */
+        const char *tname = asn1c_type_name(arg, constraining_memb, TNF_SAFE);
         OUT("const %s_t *constraining_value = (const %s_t *)", tname, tname);
         break;
+    }
     case FL_PRESUMED:
     case FL_FITS_SIGNED:
         OUT("const long *constraining_value = (const long *)");
